@@ -18,6 +18,7 @@ def check(ctx, prog):
     engine.rule_wakeup(ctx, prog)
     engine.rule_queue_writers(ctx, prog, thorough=ctx.tier == "thorough")
     model.rule_trigger_join(ctx, prog)
+    model.rule_optional_zero(ctx, prog)
     optimize.rule_offset_primitives(ctx, prog)
     shaving.rule_shave_bound(ctx, prog)
     shaving.rule_shaving_loop(ctx, prog)
